@@ -451,6 +451,24 @@ def live_record_moved_rule(rep, u):
             defs = [x["y"] for p2, r2, x, _ in fn.nodes() if x.get("k") == "bin" and x["op"] == "=" and core.is_ref(core.strip_casts(x["x"])) and core.strip_casts(x["x"]).get("id") == b0["id"]]
             if defs and all(key(core.strip_casts(d_)) == "tp_udata->tpt" for d_ in defs):
                 moved = True
+    # the previous thread pointer may dangle (a record that outlived its pool): it is followed only after it was found among
+    # the threads of the pool the record is being added to
+    guarded = True
+    for pos, root, c, ps in fn.calls({"epoll_ctl", "epoll_ctl_ex"}):
+        b0 = core.base_ref(c["args"][0])
+        if b0 is None or b0.get("dk") != "local":
+            continue
+        g = False
+        for bid in fn.reachable_blocks():
+            cnd = fn.blocks[bid].cond
+            if cnd is None or pos[0] not in fn.reach_from([bid]) or bid == pos[0]:
+                continue
+            if b0["id"] in core.ref_ids(cnd) and any(y.get("k") == "mem" and y["f"] in ("threads", "pvt") for y, _ in _walk(cnd)):
+                g = True
+        guarded = guarded and g
+    (rep.proved if guarded else rep.violated)("R-OUTDEF", fn, "previous-thread-known-before-use", "tpt_ev_add: the record's previous thread is dereferenced only when it is one of the pool's threads",
+                                              "" if guarded else "a record that outlived its pool (tp_destroy does not clear user records) keeps tpdata != 0 and a dangling thread pointer: adding it to a "
+                                              "thread of a new pool reads the freed pool (heap-use-after-free) and runs EPOLL_CTL_DEL on whatever number lies there")
     ok = moved
     desc = "tpt_ev_add: a read/write record live on another thread is removed from that thread's epoll set, then installed (not refused: the caller may have closed the descriptor)"
     (rep.proved if ok else rep.violated)("R-OUTDEF", fn, "live-rw-record-moved", desc, "EPOLL_CTL_DEL on the previous thread's set" if ok else
